@@ -56,6 +56,11 @@ Theorem C12_topo_checker : ∀ c l, is_topo_order c l = true →
 Proof. exact topo_order_sound. Qed.
 Print Assumptions C12_topo_checker.
 
+(* only acyclic graphs have an accepted order: on a cyclic graph the checker rejects whatever topo_sort might return *)
+Theorem C12_topo_acyclic : ∀ c l, is_topo_order c l = true → ¬ has_cycle c.
+Proof. exact topo_order_acyclic. Qed.
+Print Assumptions C12_topo_acyclic.
+
 (* reconvergent_fanout_nodes: exactly the nodes with two distinct fan-out branches that reach a common node (reflexive reach) *)
 Theorem C12_reconvergent : ∀ c g, closed c →
   (g ∈ reconvergent c ↔ ∃ a b m, a ≠ b ∧ a ∈ fanout c g ∧ b ∈ fanout c g ∧ reach c a m ∧ reach c b m).
@@ -71,23 +76,23 @@ Proof.
 Qed.
 Print Assumptions C12_kcuts.
 
-(* levelize: the full statement (level = longest path from a source, for every valid topological order); proved part: the entries of
-   the depth table it is compared with by the oracle are longest-path lengths, and cyclic graphs are rejected.  Missing: the
-   induction along the topological order showing levelize_go reproduces the table (decided per case by the oracle). *)
-Definition C12_levelize_full : Prop := ∀ c order lv, closed c → ¬ has_cycle c →
+(* levelize (code after fix a6f4dbc), for every valid topological order topo_sort may return: the level of a node is the length of a
+   longest path into it (a path of that length exists, none is longer); cyclic graphs are rejected.  Hypothesis: inputs and constants
+   have no fan-in (enforced by Circuit.connect) -- the code gives them level 0 unconditionally. *)
+Theorem C12_levelize : ∀ c order lv, closed c → ¬ has_cycle c →
   (∀ n i, c !! n = Some i → lev0 (n_ty i) = true → n_fi i = ∅) →
   levelize c order = Ok lv →
   dom lv = dom c ∧ ∀ n d, lv !! n = Some d → (∃ u, path c u n d) ∧ ∀ u k, path c u n k → k ≤ d.
-Theorem C12_levelize_partial : ∀ c n, closed c →
-  (has_cycle c → ∀ order, levelize c order = Raise ValueError) ∧
-  (¬ has_cycle c → n ∈ dom c →
-     (∃ u, path c u n (lvl (depth_table c) n)) ∧ ∀ u k, path c u n k → k ≤ lvl (depth_table c) n).
-Proof.
-  intros c n Hc. split.
-  - intros Hcy order. unfold levelize. apply is_cyclic_spec in Hcy; [|done]. by rewrite Hcy.
-  - intros Hac Hn. by apply depth_table_spec.
-Qed.
-Print Assumptions C12_levelize_partial.
+Proof. exact levelize_eq_depth. Qed.
+Print Assumptions C12_levelize.
+Theorem C12_levelize_rejects_cyclic : ∀ c order, closed c → has_cycle c → levelize c order = Raise ValueError.
+Proof. intros c order Hc Hcy. unfold levelize. apply is_cyclic_spec in Hcy; [|done]. by rewrite Hcy. Qed.
+Print Assumptions C12_levelize_rejects_cyclic.
+(* the table the oracle compares depths and levels with: entry n = length of a longest path into n *)
+Theorem C12_depth_table : ∀ c n, closed c → ¬ has_cycle c → n ∈ dom c →
+  (∃ u, path c u n (lvl (depth_table c) n)) ∧ ∀ u k, path c u n k → k ≤ lvl (depth_table c) n.
+Proof. exact depth_table_spec. Qed.
+Print Assumptions C12_depth_table.
 
 (* non-vacuity: g -> a -> b, g -> b (the branch that is itself the meeting point), plus a second input *)
 Definition ex12 : circuit := mk_g
@@ -102,5 +107,9 @@ Example C12_ex_values :
   fanin_depth ex12 ["o"] = Ok 3 ∧ fanout_depth ex12 ["g"; "h"] = Ok 3 ∧ is_topo_order ex12 ["h"; "g"; "a"; "b"; "o"] = true ∧
   rmap (fmap elements) (kcuts ex12 "o" 2 (λ n, elements (fanin ex12 n))) = Ok [["h"; "g"]; ["h"; "b"]; ["o"]].
 Proof. vm_compute. repeat split; reflexivity. Qed.
+Example C12_ex_levelize :
+  (λ r, match r with Ok lv => (lv !! "g", lv !! "a", lv !! "b", lv !! "o", size lv) | _ => (None, None, None, None, 0) end)
+    (levelize ex12 ["h"; "g"; "a"; "b"; "o"]) = (Some 0, Some 1, Some 2, Some 3, 5).
+Proof. vm_compute. reflexivity. Qed.
 Example C12_ex_cyclic : has_cycle (mk_g [("p", Buf, false, ["q"]); ("q", Not, true, ["p"])]).
 Proof. apply is_cyclic_spec; [apply closedb_spec; vm_compute; reflexivity|]. vm_compute. reflexivity. Qed.
